@@ -384,7 +384,33 @@ def concrete_disagreement(meta, d):
     a, b = d["impl"].split(" ")[0], d["model"].split(" ")[0]
     if a.startswith("err") and b.startswith("err"):
         return False
+    if incidental_disagreement(d):
+        return False
     return True
+
+
+# Ops whose result lines carry white-box accounting that no property speaks about.  A disagreement confined
+# to it is a broken correspondence (the model of the buffer policy no longer matches the code) but not a
+# failing input of the property: the implementation-only oracles decide the property on those cases.
+WHITEBOX_OPS = {"bufops"}                       # BufferWindow driven through the hook: fill sizes, window offsets
+ACCOUNTING_TAIL_OPS = {"bstream", "bread", "bcalls", "bskip", "breadbytes", "bparts"}   # last field = bytes delivered so far
+FAULT_STEP = re.compile(r"(^|,)[FP](,|$)")
+
+
+def incidental_disagreement(d):
+    w = d["case"].split(" ")
+    op = w[0]
+    if op in WHITEBOX_OPS:
+        return True
+    # under an injected fault the point at which the failing read call falls depends on how many read calls the
+    # buffer policy makes; every outcome `prefix of the fault-free tokens + I/O error` satisfies C20
+    if any(FAULT_STEP.search(x) for x in w[1:4]):
+        return True
+    if op in ACCOUNTING_TAIL_OPS:
+        ia, ma = d["impl"].split(" "), d["model"].split(" ")
+        if len(ia) == len(ma) and len(ia) > 1 and ia[:-1] == ma[:-1]:
+            return True
+    return False
 
 
 def main():
